@@ -188,7 +188,9 @@ func cmdCheck(args []string) int {
 	for _, u := range units {
 		if u.kind == "func" {
 			opts := VerifyOpts{}
-			if id == "C10" || id == "C20" {
+			// C07 states that every amount up to the locked coins can be split: its functions (all of them also under C20) are
+			// verified in panic mode here too, so that a crash on a large amount is a C07 violation as well
+			if id == "C10" || id == "C20" || id == "C07" {
 				opts.PanicMode = true
 				opts.PanicProps = []string{"C10", "C20"}
 			}
